@@ -259,6 +259,10 @@ Lemma inside_not_ret : forall x, inside x = true -> is_ret x = false.
 Proof. intros x. unfold inside, is_ret. destruct (k_pc x); intros; try discriminate; reflexivity. Qed.
 Lemma counted_not_ret : forall x, counted x = true -> is_ret x = false.
 Proof. intros x. unfold counted, is_ret. destruct (k_pc x); intros; try discriminate; reflexivity. Qed.
+Lemma cnt_and_le : forall f g l, (cnt (fun k => f k && g k) l <= cnt f l)%Z.
+Proof. induction l as [|h t IH]; cbn [cnt]; [lia|]. destruct (f h), (g h); cbn [andb]; lia. Qed.
+Lemma cnt_counted_by_le : forall p l, (cnt (counted_by p) l <= cnt counted l)%Z.
+Proof. induction l as [|h t IH]; cbn [cnt]; [lia|]. unfold counted_by at 1. destruct (counted h), (Nat.eqb p (k_px h)); cbn [andb]; lia. Qed.
 Lemma invoked_not_ret : forall x, invoked x = true -> is_ret x = false.
 Proof. intros x. unfold invoked, is_ret. destruct (k_pc x); intros; try discriminate; reflexivity. Qed.
 
@@ -274,7 +278,7 @@ Proof.
     { apply aget_none. intros k Hin. pose proof (s_dom s a HS _ _ Hin). lia. }
     rewrite Hnone. eexists. split; [reflexivity|].
     destruct HS as [H1 H2 H3 H4 H5 H6 H7 H8].
-    assert (Hn : nret (with_calls s (calls s ++ [mkcall ow (now s) (now s + d) Init (now s) (now s) false false None 0 0 0])) = nret s).
+    assert (Hn : nret (with_calls s (calls s ++ [mkcall px ow (now s) (now s + d) Init (now s) (now s) false false None 0 0 0])) = nret s).
     { unfold nret, with_calls; cbn [calls]. rewrite cnt_app. cbn. lia. }
     split; cbn [acs started returned recvd sends errored]; unfold with_calls; cbn [calls wire sent]; auto.
     + apply aset_keys. exact H1.
@@ -282,10 +286,10 @@ Proof.
     + apply all_app.
       * intros j kj Hj. specialize (H3 j kj Hj). unfold call_sim in *.
         assert (j < length (calls s))%nat by (apply nth_error_Some; congruence).
-        rewrite aget_aset_neq by lia. fold (with_calls s (calls s ++ [mkcall ow (now s) (now s + d) Init (now s) (now s) false false None 0 0 0])). rewrite Hn. exact H3.
+        rewrite aget_aset_neq by lia. fold (with_calls s (calls s ++ [mkcall px ow (now s) (now s + d) Init (now s) (now s) false false None 0 0 0])). rewrite Hn. exact H3.
       * unfold call_sim. rewrite aget_aset_eq. cbn. repeat split; auto. intros; discriminate.
     + rewrite app_length. cbn [length]. lia.
-    + fold (with_calls s (calls s ++ [mkcall ow (now s) (now s + d) Init (now s) (now s) false false None 0 0 0])). rewrite Hn. exact H5.
+    + fold (with_calls s (calls s ++ [mkcall px ow (now s) (now s + d) Init (now s) (now s) false false None 0 0 0])). rewrite Hn. exact H5.
     + intros id Hin. destruct (H8 id Hin) as [j [kj [Hj Hrest]]]. exists j, kj. split; [|exact Hrest].
       rewrite nth_error_app1; [exact Hj|apply nth_error_Some; congruence].
   - (* LPre *) inv_step H. exists a. split; [reflexivity|].
@@ -386,10 +390,12 @@ Proof.
     pose proof (cnt_disjoint invoked is_ret (calls s) invoked_not_ret) as B2.
     pose proof (cnt_nonneg inside (calls s)) as P1. pose proof (cnt_nonneg invoked (calls s)) as P2.
     pose proof (s_started s a HS) as Hst. pose proof (s_returned s a HS) as Hrt. fold (nret s) in B1, B2, B3.
-    assert (Hokc : ((Z.to_N (queueLen s) <=? started a - retd_at_post (aget a i) - 1)
+    pose proof (Aq (k_px c0)) as Aq0. pose proof (cnt_counted_by_le (k_px c0) (calls s)) as Ble.
+    pose proof (cnt_nonneg (counted_by (k_px c0)) (calls s)) as P4.
+    assert (Hokc : ((Z.to_N (queueLen s (k_px c0)) <=? started a - retd_at_post (aget a i) - 1)
                  && (Z.to_N (invokeNum s - 1) <=? started a - retd_at_post (aget a i) - 1)
                  && (N.of_nat (length (resp s)) <=? started a - retd_at_post (aget a i) - 1)) = true) by lia.
-    cbn [arun astep]. rewrite Gp. cbv zeta. cbn [queueLen invokeNum resp]. change (k_out (set_ret c0 (now s))) with (k_out c0). rewrite Ho, Hokc. cbn [andb].
+    cbn [arun astep]. rewrite Gp. cbv zeta. cbn [queueLen invokeNum resp]. change (k_px (set_ret c0 (now s))) with (k_px c0). change (k_out (set_ret c0 (now s))) with (k_out c0). rewrite Ho, Hokc. cbn [andb].
     assert (Hnr : nret (mkst (now s) (upd (calls s) i (set_ret c0 (now s))) (rcvs s) (queueLen s) (invokeNum s - 1)%Z (resp s) (conn_open s) (lock s) (sendq s) (wire s) (sent s) (tr s)) = (nret s + 1)%Z).
     { nret_new Heqo. cbn. reflexivity. }
     destruct o as [p| | | |]; cbn [cls_of].
